@@ -313,7 +313,17 @@ def check_closed_form(case, shard, mon, rng):
                     continue
                 fun = float(to_np(fun).reshape(-1)[0])
                 if fun - ref_fun > MARGIN[opt]:
-                    shard.violate(f"C05/closed-form-missed:{opt}", f"{kind} model: fit {key} attains 2NLL={fun!r} at {[float(v) for v in to_np(x)]}, closed-form optimum {ref_x} has {ref_fun!r}; data={case['data']} backend={pyhf.tensorlib.name}", dict(case, key=list(key)), "closed_form")
+                    name = f"C05/closed-form-missed:{opt}"
+                    xs = [float(v) for v in to_np(x)]
+                    if opt == "minuit" and kind == "counting":
+                        lo_b, hi_b = case["poi_bounds"]
+                        near = min(abs(ref_x[0] - lo_b), abs(ref_x[0] - hi_b)) < 0.1 * (hi_b - lo_b)
+                        between = min(ref_x[0], hi_b if abs(ref_x[0] - hi_b) < abs(ref_x[0] - lo_b) else lo_b) - 1e-9 <= xs[0] <= max(ref_x[0], hi_b if abs(ref_x[0] - hi_b) < abs(ref_x[0] - lo_b) else lo_b) + 1e-9
+                        if near and between and fun - ref_fun < 0.5:
+                            # MIGRAD's internal limit transformation flattens the objective next to a bound: it declares
+                            # convergence between the optimum and the bound (recorded finding, its own mechanism)
+                            name = "C05/minuit-stops-short-next-to-a-bound"
+                    shard.violate(name, f"{kind} model: fit {key} attains 2NLL={fun!r} at {[float(v) for v in to_np(x)]}, closed-form optimum {ref_x} has {ref_fun!r}; data={case['data']} backend={pyhf.tensorlib.name}", dict(case, key=list(key)), "closed_form")
                 else:
                     shard.ok("closed_form")
                     shard.maximum(f"closed_form_gap_{opt}", fun - ref_fun)
